@@ -251,7 +251,10 @@ def main():
     finally:
       # a run against a scratch copy (DK_REPO) must not leave generated Lean files describing that copy
       if os.path.realpath(C.REPO) != os.path.realpath('/repo') and os.path.isdir('/repo/device_kit'):
-        translate.regenerate_all('/repo')
+        try:
+          translate.regenerate_all('/repo')
+        except Exception as e:
+          print('warning: could not regenerate the generated Lean files from /repo: %s' % e)
   except AssertionError as e:
     print('TOOL FAILURE: ' + str(e)); rc = 2
   except Exception:
